@@ -16,7 +16,7 @@ import warnings
 
 from sim import kernel, scenes, prmspace
 from sim.digest import chunk_parts, parts_digest, typed_diff, typed_repr
-from sim.minimise import ddmin
+from sim.minimise import shrink_history
 from sim.models import (model_adjust, model_snapshot, unknown_paths, get_path, set_path,
                         leaf_paths)
 
@@ -190,9 +190,9 @@ def run_history(scene, ops, sandbox, stats=None, live=None):
     return None
 
 
-def _package(scene, ops, vio):
+def _package(scene, ops, vio, prelude=()):
     return {'clause': vio['clause'], 'signature': {'clause': vio['clause'], 'op': vio['op']},
-            'case': {'scene': scene, 'ops': ops},
+            'case': {'scene': scene, 'ops': ops, 'prelude': [list(h) for h in prelude]},
             'observed': f'op #{vio["pos"]} {vio["op"]}: {vio["clause"]} {vio.get("detail", "")} '
                         f'in {json.dumps(ops)[:500]}'}
 
@@ -204,26 +204,22 @@ def _sandbox():
     return pth
 
 
-def minimise(scene, ops, vio, sandbox):
-    want = (vio['clause'], vio['op'])
-
-    def fails(sub):
-        v = run_history(scene, sub, sandbox)
-        return v is not None and (v['clause'], v['op']) == want
-    small = ddmin([o for o in ops[:vio['pos'] + 1] if o[0] != 'live_probe'], fails, max_runs=60)
-    v = run_history(scene, small, sandbox)
-    if v is None:
-        small, v = ops, vio
-    return _package(scene, small, v)
+def shrink(vio, evaluate):
+    case = vio['case']
+    case['ops'] = [o for o in case['ops'] if o[0] != 'live_probe']
+    case['prelude'] = [[o for o in h if o[0] != 'live_probe'] for h in case.get('prelude', [])]
+    return shrink_history(vio, evaluate, max_runs=70)
 
 
 def replay(case):
     sandbox = _sandbox()
     try:
+        for ops in case.get('prelude', []):       # earlier histories of the same process
+            run_history(case['scene'], ops, sandbox)
         vio = run_history(case['scene'], case['ops'], sandbox)
     finally:
         shutil.rmtree(sandbox, ignore_errors=True)
-    return _package(case['scene'], case['ops'], vio) if vio else None
+    return _package(case['scene'], case['ops'], vio, case.get('prelude', [])) if vio else None
 
 
 # ------------------------------------------------------------------------------------------
@@ -332,6 +328,7 @@ def execute(run):
     focus = rota[run['index'] % len(rota)]
     classes = prmspace.LIVE_CLASSES.get(focus, prmspace.CLOUDY)
     sandbox = _sandbox()
+    prelude = []
     try:
         for h in range(2):
             scene = scenes.gen_scene(rng_scene, rng_scene.choice(classes))
@@ -353,8 +350,9 @@ def execute(run):
                 out['samples'].append({'scene_class': scene['cls'], 'rows': len(scene['rows']),
                                        'focus_leaf': prmspace.path_str(focus), 'ops': ops[:14]})
             if vio is not None:
-                out['violations'].append(minimise(scene, ops, vio, sandbox))
+                out['violations'].append(_package(scene, ops[:vio['pos'] + 1], vio, prelude))
                 break
+            prelude.append(ops)
     finally:
         shutil.rmtree(sandbox, ignore_errors=True)
     for leaf, n in live.items():
